@@ -217,6 +217,93 @@ func structExp(ptr bool, self c16S) func(stick.Value, []stick.Value) c16Exp {
 	}
 }
 
+// named key types of every kind the lookup converts to
+type c16KStr string
+type c16KInt int
+type c16KI8 int8
+type c16KI64 int64
+type c16KU64 uint64
+type c16KU8 uint8
+type c16KF64 float64
+type c16KF32 float32
+type c16KBool bool
+
+// reflMapExp: expectation for a map of any key type, by reflection: a key of exactly the map's key type is
+// looked up as it is; any other key is coerced to the kind of the key type (string / integral number in
+// range / number / bool) and either finds that entry or is an error.
+func reflMapExp(m interface{}) func(stick.Value, []stick.Value) c16Exp {
+	rv := reflect.ValueOf(m)
+	kt := rv.Type().Key()
+	lookup := func(k reflect.Value) (stick.Value, bool) {
+		el := rv.MapIndex(k)
+		if !el.IsValid() {
+			return nil, false
+		}
+		return el.Interface(), true
+	}
+	return func(key stick.Value, args []stick.Value) c16Exp {
+		if key != nil && reflect.TypeOf(key) == kt {
+			if el, ok := lookup(reflect.ValueOf(key)); ok {
+				return noMethodArgs(args, c16Exp{accept: []stick.Value{el}})
+			}
+			return noMethodArgs(args, c16Exp{mustErr: true})
+		}
+		e := c16Exp{errOK: true}
+		var k reflect.Value
+		switch kt.Kind() {
+		case reflect.String:
+			k = reflect.ValueOf(stick.CoerceString(key)).Convert(kt)
+		case reflect.Int, reflect.Int8, reflect.Int16, reflect.Int32, reflect.Int64:
+			n := stick.CoerceNumber(key)
+			if n == float64(int64(n)) && !reflect.Zero(kt).OverflowInt(int64(n)) {
+				k = reflect.ValueOf(int64(n)).Convert(kt)
+			}
+		case reflect.Uint, reflect.Uint8, reflect.Uint16, reflect.Uint32, reflect.Uint64:
+			n := stick.CoerceNumber(key)
+			if n >= 0 && n == float64(uint64(n)) && !reflect.Zero(kt).OverflowUint(uint64(n)) {
+				k = reflect.ValueOf(uint64(n)).Convert(kt)
+			}
+		case reflect.Float32, reflect.Float64:
+			k = reflect.ValueOf(stick.CoerceNumber(key)).Convert(kt)
+		case reflect.Bool:
+			k = reflect.ValueOf(stick.CoerceBool(key)).Convert(kt)
+		}
+		if k.IsValid() {
+			if el, ok := lookup(k); ok {
+				e.accept = []stick.Value{el}
+				return noMethodArgs(args, e)
+			}
+		}
+		e.mustErr = true
+		return noMethodArgs(args, e)
+	}
+}
+
+func c16NamedKeyMaps() []c16Cont {
+	var res []c16Cont
+	add := func(name string, m interface{}) {
+		res = append(res, c16Cont{name, m, reflMapExp(m)})
+		p := reflect.New(reflect.TypeOf(m))
+		p.Elem().Set(reflect.ValueOf(m))
+		res = append(res, c16Cont{"*" + name, p.Interface(), reflMapExp(m)})
+	}
+	add("map[named string]string", map[c16KStr]string{"k": "nk", "1": "n1", "": "ne", "true": "nt"})
+	add("map[named int]string", map[c16KInt]string{0: "i0", 1: "i1", -1: "im"})
+	add("map[named int8]string", map[c16KI8]string{0: "b0", 1: "b1", -1: "bm"})
+	add("map[named int64]string", map[c16KI64]string{0: "l0", 1: "l1", 2: "l2"})
+	add("map[time.Duration]string", map[time.Duration]string{0: "d0", 1: "d1", time.Second: "ds"})
+	add("map[named uint64]string", map[c16KU64]string{0: "u0", 1: "u1", 3: "u3"})
+	add("map[named uint8]string", map[c16KU8]string{0: "v0", 2: "v2"})
+	add("map[named float64]string", map[c16KF64]string{0: "f0", 1: "f1", 1.5: "f15"})
+	add("map[named float32]string", map[c16KF32]string{1: "g1", 1.5: "g15"})
+	add("map[named bool]int", map[c16KBool]int{true: 1, false: 2})
+	add("map[int64]string", map[int64]string{0: "p0", 1: "p1", -1: "pm"})
+	add("map[uint8]string", map[uint8]string{0: "q0", 2: "q2"})
+	add("map[float32]string", map[float32]string{1: "r1", 1.5: "r15"})
+	add("map[named string]Value(nil)", map[c16KStr]stick.Value(nil))
+	return res
+}
+
 func c16Containers() []c16Cont {
 	msv := map[string]stick.Value{"k": "vk", "1": "one", "": "empty", "true": "T"}
 	mss := map[string]string{"k": "v", "1": "uno"}
@@ -248,7 +335,7 @@ func c16Containers() []c16Cont {
 		}
 		return r
 	}
-	return []c16Cont{
+	base := []c16Cont{
 		{"map[string]Value", msv, stringMapExp(msv)},
 		{"map[string]string", mss, stringMapExp(toV(mss))},
 		{"map[string]int", msi, stringMapExp(toV(msi))},
@@ -344,11 +431,13 @@ func c16Containers() []c16Cont {
 		{"bool", true, allErr},
 		{"float64", 2.5, allErr},
 	}
+	return append(base, c16NamedKeyMaps()...)
 }
 
 func c16Keys() []stick.Value {
 	return []stick.Value{"k", "missing", "Field", "unexported", "Method", "PtrMethod", "Add", "Greet", "IntArg", "Var", "Join", "Two", "None", "Emb",
-		"", 0, 1, 2, -1, 3, 1.0, 1.5, "1", true, false, nil, int8(1), uint(2), "0", "true", []int{1}}
+		"", 0, 1, 2, -1, 3, 1.0, 1.5, "1", true, false, nil, int8(1), uint(2), "0", "true", []int{1},
+		c16KStr("k"), c16KI64(1), time.Duration(1), c16KBool(true), c16KF64(1.5), int64(1), 300, -200.0, uint64(1) << 63}
 }
 
 func c16ArgLists() [][]stick.Value {
